@@ -31,7 +31,7 @@ ASSUMPTIONS = [
     'Gaussian priors are kept within +/-10 % of physical nominal values (negative temperatures etc. are not among the invalid-atmosphere classes of the statement)',
     'chi^2 == 0 (model equal to data) is outside the domain (the code maps it to NaN on purpose)',
 ]
-REQUIRED = {'extreme-error-bars': 0.1, 'retargeted:after-use': 0.1, 'retargeted:before-use': 0.1, 'observation-parameter-fitted': 0.15, 'sampler:nestle': 0.1, 'sampler:multinest': 0.1, 'sampler:polychord': 0.06, 'has-invalid-point': 0.1}
+REQUIRED = {'native-count-equals-bins': 0.05, 'observation:2-d-arrays': 0.1, 'extreme-error-bars': 0.1, 'retargeted:after-use': 0.1, 'retargeted:before-use': 0.1, 'observation-parameter-fitted': 0.15, 'sampler:nestle': 0.1, 'sampler:multinest': 0.1, 'sampler:polychord': 0.06, 'has-invalid-point': 0.1}
 
 POOL = ['planet_radius', 'T', 'mol0', 'mol1', 'fill', 'clouds_pressure']
 
@@ -57,7 +57,12 @@ def _case(draw, sampler=None):
            'noise': draw(st.lists(st.floats(-1, 1), min_size=nb, max_size=nb)),
            'err': draw(st.lists(st.floats(0.2, 3.0), min_size=nb, max_size=nb)),
            'pos': draw(st.floats(0.05, 0.95)), 'wfac': draw(st.lists(st.floats(0.3, 0.9), min_size=nb, max_size=nb)),
-           'obs_param': draw(st.sampled_from([True, False, False])), 'err_mag': draw(st.sampled_from([0, -110, 0, 110, 0]))}
+           'obs_param': draw(st.sampled_from([True, False, False])), 'err_mag': draw(st.sampled_from([0, -110, 0, 110, 0])),
+           # bins about as wide as the native spacing (an observation as fine as the model grid): the clipped native grid
+           # then often holds exactly as many points as there are bins -- at other positions
+           'narrow': draw(st.sampled_from([None, 0.8, None, 1.0, 0.9, None, 0.7])),
+           # the spectrum and its error bars held as 2-D arrays (rows of a light-curve-like layout), same numbers
+           'two_d': draw(st.sampled_from([False, False, True]))}
     npts = draw(S.ints(4, 14))
     pts = [{'u': draw(st.lists(st.floats(0.02, 0.98), min_size=5, max_size=5)),
             'invalid': draw(st.sampled_from([True, False, False]))} for _ in range(npts)]
@@ -124,6 +129,8 @@ def make_observation(out, o, native, nspec, w):
     spacing = w['dwn']
     span = native[-1] - native[0]
     width = max(4.0 * spacing, 0.8 * span / (nb + 1))
+    if o.get('narrow'):
+        width = o['narrow'] * spacing
     if width * (nb - 1) > 0.9 * span:
         nb = max(2, int(0.9 * span / width))
     c0 = native[0] + 0.6 * width + o['pos'] * max(span - width * (nb - 1) - 1.2 * width, 0.0)
@@ -137,7 +144,38 @@ def make_observation(out, o, native, nspec, w):
     dwl = 10000.0 * (width * np.array(o['wfac'][:nb])) / centres ** 2
     rows = np.array([wl, val, err] + ([dwl] if o['cols'] == 4 else [])).T
     perm = [i for i in o['perm'] if i < nb]
-    return cut(out, 'observation', (scaled_observation_class() if o.get('obs_param') else ArraySpectrum), rows[perm].copy())
+    klass = scaled_observation_class() if o.get('obs_param') else ArraySpectrum
+    if o.get('two_d'):
+        out.cls('observation:2-d-arrays')
+        klass = two_d_observation_class(klass)
+    return cut(out, 'observation', klass, rows[perm].copy())
+
+
+_TWO_D = {}
+
+
+def two_d_observation_class(base):
+    """the same observation with spectrum and error bars held as 2-D arrays (2 x n/2, or 1 x n): the layout of the
+    light-curve observation class, which the likelihood handles by flattening"""
+    if base in _TWO_D:
+        return _TWO_D[base]
+
+    class TwoD(base):
+        @staticmethod
+        def _fold(a):
+            a = np.asarray(a)
+            return a.reshape(2, -1) if a.size % 2 == 0 else a.reshape(1, -1)
+
+        @property
+        def spectrum(self):
+            return self._fold(base.spectrum.fget(self))
+
+        @property
+        def errorBar(self):
+            return self._fold(base.errorBar.fget(self))
+    TwoD.__name__ = 'TwoD' + base.__name__
+    _TWO_D[base] = TwoD
+    return TwoD
 
 
 _SCALED = []
@@ -209,8 +247,8 @@ def check(case):
             owl = np.asarray(obs.wavelengthGrid, dtype=float)
             own = np.asarray(obs.wavenumberGrid, dtype=float)
             oww = np.asarray(obs.binWidths, dtype=float)
-            oval = np.asarray(obs.spectrum, dtype=float)
-            oerr = np.asarray(obs.errorBar, dtype=float)
+            oval = np.asarray(obs.spectrum, dtype=float).ravel()
+            oerr = np.asarray(obs.errorBar, dtype=float).ravel()
             # ---- optimizer -----------------------------------------------------------------------------
             # history: the optimizer is first bound to a DIFFERENT observation (other bin layout) and
             # then re-targeted with set_observed(); the callbacks must refer to the current one
@@ -338,6 +376,8 @@ def check(case):
                     g, s, _, _ = m2.model(wngrid=own.copy())
                 g = np.asarray(g, dtype=float)
                 s = np.asarray(s, dtype=float)
+                if len(g) == len(own):
+                    out.cls('native-count-equals-bins')
                 e, nw = midpoint_widths(g)
                 chi = 0.0
                 exact = True
